@@ -30,7 +30,7 @@ def step (s : Unit) (ts : List String) : Unit × Verdict × List String :=
       let msN := nat! ms
       -- model: the pass after the fault (the worker needs one loop iteration, at most ~1 s with the
       -- 1 s cleaning / statistics intervals of the run, to reach its fault point) returns an error
-      let outcome : Outcome := if mode = "panic" then .panicked else if mode = "bind" then .returnedErr else .returnedOk
+      let outcome : Outcome := if mode = "panic" then .panicked else if mode.startsWith "bind" then .returnedErr else .returnedOk
       let modelRes := pass shape 0 [.running, outcome]
       let isErr := line.startsWith "EXIT_err"
       if msN ≥ 10000 then (s, .specfail s!"run() returned only {msN} ms after the worker stopped", notes)
